@@ -425,6 +425,7 @@ type setOutcome struct {
 
 // set performs one TransactionSet through the same conversion the server handler uses.
 func (r *histRun) set(id string, step []stepIntent, replace *stepIntent, timeout time.Duration, dry bool) setOutcome {
+	core.Progress()
 	var out setOutcome
 	tis, err := r.mkTis(step)
 	if err != nil {
